@@ -149,6 +149,32 @@ def cbmc_args(h):
     return (["--cbmc-args"] + args) if args else []
 
 
+def strip_generics(name):
+    out, depth = [], 0
+    for ch in name:
+        if ch == "<":
+            depth += 1
+        elif ch == ">":
+            depth = max(0, depth - 1)
+        elif depth == 0:
+            out.append(ch)
+    return re.sub(r"::+", "::", "".join(out)).strip(":")
+
+
+def hpke_functions(checks):
+    """hpke functions in which CBMC generated at least one check (a lower bound on what was encoded)"""
+    fs = set()
+    for c in checks:
+        f = c.get("function", "") or ""
+        m = re.search(r"hpke::[A-Za-z0-9_:<>, &'\[\];]*", f)
+        if f.startswith("hpke::") or f.startswith("<hpke::"):
+            g = strip_generics(f.replace("<hpke::", "hpke::", 1) if f.startswith("<hpke::") else f)
+            if " as " in g:
+                g = g.split(" as ")[0]
+            fs.add(g)
+    return sorted(fs)
+
+
 def run_harness(h, extra=None, tag=""):
     """Run one harness as its own cargo-kani/CBMC process. Returns a result dict."""
     name = h["name"]
@@ -216,6 +242,7 @@ def run_harness(h, extra=None, tag=""):
     r = results[0]
     checks = r.get("checks", [])
     res["n_checks"] = len(checks)
+    res["hpke_functions"] = hpke_functions(checks)
     failed = []
     undet = []
     for c in checks:
@@ -623,6 +650,7 @@ def conclude(prop, hs, results, args, seed, tb, t_start):
                 "symex_s": r["stats"].get("runtime_symex_s"),
                 "solver_s": r["stats"].get("runtime_solver_s"),
                 "program_steps": r["stats"].get("size_program_expression"),
+                "hpke_functions_with_checks": r.get("hpke_functions", []),
             }
         )
     coverage = {
@@ -635,6 +663,8 @@ def conclude(prop, hs, results, args, seed, tb, t_start):
         "checker_cmd": "cargo kani (Kani 0.68.0, CBMC 6.11.0, CaDiCaL) --harness <h> --exact " + " ".join(BASE_ARGS),
         "trusted_base": ["rustc/Kani MIR->goto translation", "CBMC 6.11 symbolic execution and bit-blasting", "CaDiCaL", "the model primitives and stubs listed under assumptions"],
         "explanation": "bounded model checking of the real hpke source compiled by Kani from /repo's working tree (%s); unwinding assertions on; every harness listed under samples with its bounds; a counterexample is replayed natively before it is reported" % repo_state(),
+        "functions_encoded": sorted({f for r in results.values() for f in r.get("hpke_functions", [])}),
+        "functions_encoded_note": "hpke functions in which CBMC generated at least one check, from Kani's JSON export (a lower bound: in `func` mode functions without assertions, panics or loops carry no check)",
         "solver_time_s": round(sum(r["stats"].get("runtime_solver_s", 0) or 0 for r in results.values()), 1),
         "symex_time_s": round(sum(r["stats"].get("runtime_symex_s", 0) or 0 for r in results.values()), 1),
         "undecided": [h["name"] + ": " + why for h, why in undecided],
